@@ -7,8 +7,10 @@ Lemmas for C09 / C19 (schema regeneration, canonical form, cycle check, freeze).
 * logical-type members: `logicalOfMembers`, `LogicalType.Expressible`, `logical_members_roundtrip`;
 * one-level views `pcfStep` / `renderStep` (`pcf_succ`, `render_succ`, `*_nil`, `*_cons`) with the
   combinators `mapOk`, `andThen`; `NP r` := `r ≠ .error .panic`;
-* `pcf`: fuel monotonicity, `PcfLe` (what a successful call does to the state), `pcfMeasure`,
-  `pcf_total_aux`, `pcfBound`;
+* `pcf`: fuel monotonicity, generation cells of `onPath` (`PcfState.cell`, `pcf_cell_set`),
+  `PcfLe` (what a successful call does to the state), `pcfMeasure` (potential of the generation
+  guard, `≤ S.size * (S.size + 1)` in every state), `pcf_total_aux`, `pcfBound`; at the end
+  `pcf_reenter`, `pcf_cop_aux`, `pcf_unnamed_cycle_not_ok`;
 * `check_for_cycles`: `CycLe`, `cycMeasure`, `cyc_total_aux`, `checkForCyclesF` (fuel as parameter);
 * `render`: fuel monotonicity, generation cells (`RenderState.get_set`), `RLe`, `RInv`,
   `renderPot` (potential of the generation-counter guard), `render_total_aux`, `renderBound`;
@@ -371,9 +373,10 @@ def mapOk {α β : Type} (r : Except SchemaErr α) (f : α → β) : Except Sche
 
 def pcfUnnamed (st : PcfState) (key : Nat) (body : PcfState → Except SchemaErr PcfState) :
     Except SchemaErr PcfState :=
-  if st.onPath.contains key then .error .custom
-  else mapOk (body { st with onPath := key :: st.onPath })
-    fun st' => { st' with onPath := st'.onPath.erase key }
+  if (st.onPath.lookup key).getD 0 = st.written.length + 1 then .error .custom
+  else mapOk (body { st with onPath := (key, st.written.length + 1) :: st.onPath.filter (·.1 ≠ key) })
+    fun st' => { st' with
+      onPath := (key, (st.onPath.lookup key).getD 0) :: st'.onPath.filter (·.1 ≠ key) }
 
 def pcfNamed (st : PcfState) (key : Nat) (name : Name)
     (full : PcfState → Except SchemaErr PcfState) : Except SchemaErr PcfState :=
@@ -652,82 +655,186 @@ theorem width_le_maxWidth (S : SchemaMut) (key : Nat) (node : RawNode) (h : S[ke
 theorem lt_size_of_getElem? (S : SchemaMut) (key : Nat) (node : RawNode) (h : S[key]? = some node) :
     key < S.size := (Array.getElem?_eq_some_iff.mp h).1
 
+/-! #### the generation cells of `onPath` -/
+
+theorem lookup_filter_ne (l : List (Nat × Nat)) (i j : Nat) (h : j ≠ i) :
+    (l.filter (·.1 ≠ i)).lookup j = l.lookup j := by
+  induction l with
+  | nil => rfl
+  | cons x xs ih =>
+    obtain ⟨a, b⟩ := x
+    by_cases ha : a = i
+    · subst ha
+      have : (j == a) = false := by simpa using h
+      have hd : decide ((a, b).1 ≠ a) = false := by simp
+      simp only [List.filter, hd, List.lookup_cons, this, ih]
+    · have : decide ((a, b).1 ≠ i) = true := by simpa using ha
+      simp only [List.filter, this, List.lookup_cons, ih]
+
+theorem sum_map_le {α : Type} (l : List α) (f g : α → Nat) (h : ∀ x ∈ l, f x ≤ g x) :
+    (l.map f).sum ≤ (l.map g).sum := by
+  induction l with
+  | nil => exact Nat.le_refl _
+  | cons x xs ih =>
+    simp only [List.map_cons, List.sum_cons]
+    have := h x List.mem_cons_self
+    have := ih fun y hy => h y (List.mem_cons_of_mem _ hy)
+    omega
+
+theorem sum_map_lt {α : Type} (l : List α) (f g : α → Nat) (h : ∀ x ∈ l, f x ≤ g x)
+    (a : α) (ha : a ∈ l) (hlt : f a + 1 ≤ g a) : (l.map f).sum + 1 ≤ (l.map g).sum := by
+  induction l with
+  | nil => cases ha
+  | cons x xs ih =>
+    simp only [List.map_cons, List.sum_cons]
+    have hx := h x List.mem_cons_self
+    have hle := sum_map_le xs f g fun y hy => h y (List.mem_cons_of_mem _ hy)
+    rcases List.mem_cons.mp ha with rfl | hm
+    · omega
+    · have := ih (fun y hy => h y (List.mem_cons_of_mem _ hy)) hm
+      omega
+
+theorem sum_map_le_const {α : Type} (l : List α) (f : α → Nat) (c : Nat) (h : ∀ x ∈ l, f x ≤ c) :
+    (l.map f).sum ≤ l.length * c := by
+  induction l with
+  | nil => simp
+  | cons x xs ih =>
+    simp only [List.map_cons, List.sum_cons, List.length_cons, Nat.succ_mul]
+    have := h x List.mem_cons_self
+    have := ih fun y hy => h y (List.mem_cons_of_mem _ hy)
+    omega
+
+/-- the node is a record, enum or fixed -/
+def isNamedKey (S : SchemaMut) (j : Nat) : Bool :=
+  match S[j]? with
+  | some node =>
+    (match node.type with
+      | .record _ _ => true | .enum _ _ => true | .fixed _ _ => true | _ => false)
+  | none => false
+
+/-- the generation recorded for an unnamed node (`0` = not being written) -/
+def PcfState.cell (st : PcfState) (i : Nat) : Nat := (st.onPath.lookup i).getD 0
+
+/-- the current generation: `1 +` the number of named types written -/
+def PcfState.gen (st : PcfState) : Nat := st.written.length + 1
+
+theorem pcf_cell_set (l : List (Nat × Nat)) (i v j : Nat) :
+    (((i, v) :: l.filter (·.1 ≠ i)).lookup j).getD 0 = if j = i then v else (l.lookup j).getD 0 := by
+  by_cases h : j = i
+  · subst h; simp
+  · have : (j == i) = false := by simpa using h
+    simp only [List.lookup_cons, this, lookup_filter_ne _ _ _ h, h, if_false]
+
+theorem free_le (n : Nat) (l : List Nat) : free n l ≤ n := by
+  have := List.countP_le_length (p := fun i => !l.contains i) (l := List.range n)
+  simpa [free] using this
+
 /-! #### what a successful `pcf` does to `written` / `onPath` -/
 
-/-- `onPath` is restored and `written` only grows. -/
-def PcfLe (st st' : PcfState) : Prop :=
-  st'.onPath = st.onPath ∧ ∀ i, i ∈ st.written → i ∈ st'.written
+/-- The generation cells are restored, `written` only grows, and
+    `written.length + #(indices not in written)` does not grow. -/
+structure PcfLe (S : SchemaMut) (st st' : PcfState) : Prop where
+  cell : ∀ j, st'.cell j = st.cell j
+  sub : ∀ i, i ∈ st.written → i ∈ st'.written
+  len : st.written.length ≤ st'.written.length
+  bal : st'.written.length + free S.size st'.written ≤ st.written.length + free S.size st.written
 
-theorem PcfLe.refl (st : PcfState) : PcfLe st st := ⟨rfl, fun _ h => h⟩
-theorem PcfLe.trans {a b c : PcfState} (h1 : PcfLe a b) (h2 : PcfLe b c) : PcfLe a c :=
-  ⟨h2.1.trans h1.1, fun i h => h2.2 i (h1.2 i h)⟩
+theorem PcfLe.refl (S : SchemaMut) (st : PcfState) : PcfLe S st st :=
+  ⟨fun _ => rfl, fun _ h => h, Nat.le_refl _, Nat.le_refl _⟩
+theorem PcfLe.trans {S : SchemaMut} {a b c : PcfState} (h1 : PcfLe S a b) (h2 : PcfLe S b c) :
+    PcfLe S a c :=
+  ⟨fun j => (h2.cell j).trans (h1.cell j), fun i h => h2.sub i (h1.sub i h),
+    Nat.le_trans h1.len h2.len, Nat.le_trans h2.bal h1.bal⟩
+
+/-- changing `out` only -/
+theorem PcfLe.of_eq (S : SchemaMut) {st st' : PcfState} (hw : st'.written = st.written)
+    (hp : st'.onPath = st.onPath) : PcfLe S st st' := by
+  refine ⟨fun j => ?_, fun i h => hw ▸ h, by rw [hw]; exact Nat.le_refl _, by rw [hw]; exact Nat.le_refl _⟩
+  unfold PcfState.cell; rw [hp]
+
+theorem PcfLe.outs {S : SchemaMut} {s a : PcfState} {o o' : String}
+    (h : PcfLe S { s with out := o } a) : PcfLe S s { a with out := o' } :=
+  PcfLe.trans (PcfLe.of_eq S (st := s) (st' := { s with out := o }) rfl rfl)
+    (PcfLe.trans h (PcfLe.of_eq S (st := a) (st' := { a with out := o' }) rfl rfl))
 
 theorem pcfStep_le (S : SchemaMut) {rp : Nat → PcfState → Except SchemaErr PcfState}
     {rl : List Nat → Bool → PcfState → Except SchemaErr PcfState}
     {rf : List (String × Nat) → Bool → PcfState → Except SchemaErr PcfState}
-    (hp : ∀ k s s', rp k s = .ok s' → PcfLe s s')
-    (hl : ∀ k f s s', rl k f s = .ok s' → PcfLe s s')
-    (hf : ∀ k f s s', rf k f s = .ok s' → PcfLe s s') (key : Nat) (st st' : PcfState) :
-    pcfStep S rp rl rf key st = .ok st' → PcfLe st st' := by
+    (hp : ∀ k s s', rp k s = .ok s' → PcfLe S s s')
+    (hl : ∀ k f s s', rl k f s = .ok s' → PcfLe S s s')
+    (hf : ∀ k f s s', rf k f s = .ok s' → PcfLe S s s') (key : Nat) (st st' : PcfState) :
+    pcfStep S rp rl rf key st = .ok st' → PcfLe S st st' := by
+  unfold pcfStep
+  split
+  · intro h; cases h
+  next node hS =>
+  have hk := lt_size_of_getElem? S key node hS
   have unn : ∀ (body : PcfState → Except SchemaErr PcfState),
-      (∀ s s', body s = .ok s' → PcfLe s s') → pcfUnnamed st key body = .ok st' → PcfLe st st' := by
+      (∀ s s', body s = .ok s' → PcfLe S s s') → pcfUnnamed st key body = .ok st' → PcfLe S st st' := by
     intro body hb h
     unfold pcfUnnamed at h
     split at h
     · cases h
     · obtain ⟨a, ha, rfl⟩ := mapOk_ok h
       have := hb _ _ ha
-      refine ⟨?_, fun i hi => this.2 i hi⟩
-      simp only [this.1, List.erase_cons_head]
+      refine ⟨fun j => ?_, this.sub, this.len, this.bal⟩
+      have hj := this.cell j
+      unfold PcfState.cell at hj ⊢
+      simp only [pcf_cell_set] at hj ⊢
+      by_cases e : j = key
+      · subst e; simp
+      · simpa [e] using hj
   have nam : ∀ (name : Name) (full : PcfState → Except SchemaErr PcfState),
-      (∀ s s', full s = .ok s' → PcfLe s s') → pcfNamed st key name full = .ok st' → PcfLe st st' := by
+      (∀ s s', full s = .ok s' → PcfLe S s s') → pcfNamed st key name full = .ok st' → PcfLe S st st' := by
     intro name full hb h
     unfold pcfNamed at h
     split at h
-    · cases h; exact ⟨rfl, fun _ h => h⟩
-    · have := hb _ _ h
-      exact ⟨this.1, fun i hi => this.2 i (List.mem_cons_of_mem _ hi)⟩
-  unfold pcfStep
+    · cases h; exact PcfLe.of_eq S rfl rfl
+    next hc =>
+      have := hb _ _ h
+      have hc' : key ∉ st.written := by simpa using hc
+      have hfree := free_cons_lt S.size st.written key hk hc'
+      refine ⟨this.cell, fun i hi => this.sub i (List.mem_cons_of_mem _ hi), ?_, ?_⟩
+      · have := this.len; simp only [List.length_cons] at this; omega
+      · have := this.bal; simp only [List.length_cons] at this; omega
   split
-  · intro h; cases h
-  · split
-    any_goals (intro h; cases h; exact ⟨rfl, fun _ h => h⟩)
-    · refine unn _ fun s s' h => ?_
-      obtain ⟨a, ha, rfl⟩ := mapOk_ok h
-      have := hl _ _ _ _ ha
-      exact ⟨this.1, this.2⟩
-    · refine unn _ fun s s' h => ?_
-      obtain ⟨a, ha, rfl⟩ := mapOk_ok h
-      have := hp _ _ _ ha
-      exact ⟨this.1, this.2⟩
-    · refine unn _ fun s s' h => ?_
-      obtain ⟨a, ha, rfl⟩ := mapOk_ok h
-      have := hp _ _ _ ha
-      exact ⟨this.1, this.2⟩
-    · refine nam _ _ fun s s' h => ?_
-      cases h; exact ⟨rfl, fun _ h => h⟩
-    · refine nam _ _ fun s s' h => ?_
-      cases h; exact ⟨rfl, fun _ h => h⟩
-    · refine nam _ _ fun s s' h => ?_
-      obtain ⟨a, ha, rfl⟩ := mapOk_ok h
-      have := hf _ _ _ _ ha
-      exact ⟨this.1, this.2⟩
+  any_goals (intro h; cases h; exact PcfLe.of_eq S rfl rfl)
+  · refine unn _ fun s s' h => ?_
+    obtain ⟨a, ha, rfl⟩ := mapOk_ok h
+    have h1 := hl _ _ _ _ ha
+    exact h1.outs
+  · refine unn _ fun s s' h => ?_
+    obtain ⟨a, ha, rfl⟩ := mapOk_ok h
+    have h1 := hp _ _ _ ha
+    exact h1.outs
+  · refine unn _ fun s s' h => ?_
+    obtain ⟨a, ha, rfl⟩ := mapOk_ok h
+    have h1 := hp _ _ _ ha
+    exact h1.outs
+  · refine nam _ _ fun s s' h => ?_
+    cases h; exact PcfLe.of_eq S rfl rfl
+  · refine nam _ _ fun s s' h => ?_
+    cases h; exact PcfLe.of_eq S rfl rfl
+  · refine nam _ _ fun s s' h => ?_
+    obtain ⟨a, ha, rfl⟩ := mapOk_ok h
+    have h1 := hf _ _ _ _ ha
+    exact h1.outs
 
 theorem pcf_le_aux (S : SchemaMut) : ∀ fuel,
-    (∀ key st st', pcf S fuel key st = .ok st' → PcfLe st st') ∧
-    (∀ ks first st st', pcfList S fuel ks first st = .ok st' → PcfLe st st') ∧
-    (∀ fs first st st', pcfFields S fuel fs first st = .ok st' → PcfLe st st') := by
+    (∀ key st st', pcf S fuel key st = .ok st' → PcfLe S st st') ∧
+    (∀ ks first st st', pcfList S fuel ks first st = .ok st' → PcfLe S st st') ∧
+    (∀ fs first st st', pcfFields S fuel fs first st = .ok st' → PcfLe S st st') := by
   intro fuel
   induction fuel with
   | zero =>
     refine ⟨fun key st st' h => (by cases h), ?_, ?_⟩
     · intro ks first st st' h
       cases ks with
-      | nil => cases h; exact PcfLe.refl _
+      | nil => cases h; exact PcfLe.refl _ _
       | cons k rest => cases h
     · intro ks first st st' h
       cases ks with
-      | nil => cases h; exact PcfLe.refl _
+      | nil => cases h; exact PcfLe.refl _ _
       | cons k rest => cases h
   | succ fuel ih =>
     obtain ⟨ih1, ih2, ih3⟩ := ih
@@ -737,17 +844,17 @@ theorem pcf_le_aux (S : SchemaMut) : ∀ fuel,
       exact pcfStep_le S ih1 ih2 ih3 key st st'
     · intro ks first st st' h
       cases ks with
-      | nil => rw [pcfList_nil] at h; cases h; exact PcfLe.refl _
+      | nil => rw [pcfList_nil] at h; cases h; exact PcfLe.refl _ _
       | cons k rest =>
         rw [pcfList_cons] at h
         obtain ⟨a, ha, hb⟩ := andThen_ok h
         have h1 := ih1 _ _ _ ha
         have h2 := ih2 _ _ _ _ hb
         refine PcfLe.trans ?_ (PcfLe.trans h1 h2)
-        cases first <;> exact ⟨rfl, fun _ h => h⟩
+        cases first <;> exact PcfLe.of_eq S rfl rfl
     · intro fs first st st' h
       cases fs with
-      | nil => rw [pcfFields_nil] at h; cases h; exact PcfLe.refl _
+      | nil => rw [pcfFields_nil] at h; cases h; exact PcfLe.refl _ _
       | cons f rest =>
         obtain ⟨name, k⟩ := f
         rw [pcfFields_cons] at h
@@ -755,22 +862,98 @@ theorem pcf_le_aux (S : SchemaMut) : ∀ fuel,
         have h1 := ih1 _ _ _ ha
         have h2 := ih3 _ _ _ _ hb
         refine PcfLe.trans ?_ (PcfLe.trans h1 (PcfLe.trans ?_ h2))
-        · cases first <;> exact ⟨rfl, fun _ h => h⟩
-        · exact ⟨rfl, fun _ h => h⟩
+        · cases first <;> exact PcfLe.of_eq S rfl rfl
+        · exact PcfLe.of_eq S rfl rfl
 
 
 /-! #### totality of `pcf` -/
 
-/-- how many more "pushes" (a named node to write, an unnamed node to enter) are possible -/
-def pcfMeasure (S : SchemaMut) (st : PcfState) : Nat :=
-  free S.size st.written + free S.size st.onPath
+/-- What node `j` can still contribute to the depth of the recursion: a named node is written in
+    full at most once; an unnamed node can be entered once per generation, and there are at most
+    `free S.size written + 1` generations to come (the current one included), the current one
+    being used up when the cell holds it. -/
+def pcfCellPot (S : SchemaMut) (st : PcfState) (j : Nat) : Nat :=
+  if isNamedKey S j then (if j ∈ st.written then 0 else 1)
+  else free S.size st.written + 1 - (if st.cell j = st.gen then 1 else 0)
 
-theorem pcfMeasure_le (S : SchemaMut) {st st' : PcfState} (h : PcfLe st st') :
+/-- potential of the generation guard of `pcf`: how many more "pushes" (a named node to write,
+    an unnamed node to enter) are possible along a chain of nested calls -/
+def pcfMeasure (S : SchemaMut) (st : PcfState) : Nat :=
+  ((List.range S.size).map (pcfCellPot S st)).sum
+
+theorem pcfMeasure_le (S : SchemaMut) {st st' : PcfState} (h : PcfLe S st st') :
     pcfMeasure S st' ≤ pcfMeasure S st := by
-  unfold pcfMeasure
-  rw [h.1]
-  have := free_mono S.size _ _ h.2
-  omega
+  apply sum_map_le
+  intro j _
+  unfold pcfCellPot
+  have hF := free_mono S.size _ _ h.sub
+  have hlen := h.len
+  have hbal := h.bal
+  split
+  · by_cases hc : j ∈ st.written
+    · rw [if_pos hc, if_pos (h.sub j hc)]; exact Nat.le_refl _
+    · rw [if_neg hc]
+      split <;> omega
+  · rw [h.cell j]
+    unfold PcfState.gen
+    by_cases hlt : free S.size st'.written = free S.size st.written
+    · have : st'.written.length = st.written.length := by omega
+      rw [this, hlt]
+      exact Nat.le_refl _
+    · split <;> split <;> omega
+
+theorem pcfMeasure_le_bound (S : SchemaMut) (st : PcfState) :
+    pcfMeasure S st ≤ S.size * (S.size + 1) := by
+  have := sum_map_le_const (List.range S.size) (pcfCellPot S st) (S.size + 1) (by
+    intro j _
+    unfold pcfCellPot
+    have := free_le S.size st.written
+    split
+    · split <;> omega
+    · omega)
+  simpa [pcfMeasure] using this
+
+theorem pcf_unnamed_enter (S : SchemaMut) (st : PcfState) (key : Nat) (hk : key < S.size)
+    (hun : isNamedKey S key = false) (hne : st.cell key ≠ st.gen) :
+    pcfMeasure S { st with onPath := (key, st.written.length + 1) :: st.onPath.filter (·.1 ≠ key) } + 1
+      ≤ pcfMeasure S st := by
+  have hcell : ∀ j, ({ st with onPath := (key, st.written.length + 1) :: st.onPath.filter (·.1 ≠ key) } :
+      PcfState).cell j = if j = key then st.written.length + 1 else st.cell j :=
+    fun j => pcf_cell_set _ _ _ _
+  apply sum_map_lt _ _ _ _ key (List.mem_range.mpr hk)
+  · unfold pcfCellPot
+    rw [hcell]
+    have hne' : ¬ st.cell key = st.written.length + 1 := hne
+    simp only [hun, Bool.false_eq_true, if_false, if_true, PcfState.gen, hne']
+    omega
+  · intro j _
+    unfold pcfCellPot
+    rw [hcell]
+    by_cases e : j = key
+    · subst e
+      have hne' : ¬ st.cell j = st.written.length + 1 := hne
+      simp only [hun, Bool.false_eq_true, if_false, if_true, PcfState.gen, hne']
+      omega
+    · simp only [e, if_false]
+      exact Nat.le_refl _
+
+theorem pcf_named_enter (S : SchemaMut) (st : PcfState) (key : Nat) (hk : key < S.size)
+    (hnm : isNamedKey S key = true) (hc : key ∉ st.written) :
+    pcfMeasure S { st with written := key :: st.written } + 1 ≤ pcfMeasure S st := by
+  have hfree := free_cons_lt S.size st.written key hk hc
+  apply sum_map_lt _ _ _ _ key (List.mem_range.mpr hk)
+  · unfold pcfCellPot
+    rw [if_pos hnm, if_pos hnm, if_pos List.mem_cons_self, if_neg hc]
+    exact Nat.le_refl _
+  · intro j _
+    unfold pcfCellPot
+    split
+    · by_cases hj : j ∈ st.written
+      · rw [if_pos hj, if_pos (List.mem_cons_of_mem _ hj)]; exact Nat.le_refl _
+      · rw [if_neg hj]
+        split <;> omega
+    · show free S.size (key :: st.written) + 1 - _ ≤ _
+      split <;> split <;> omega
 
 theorem pcfStep_total (S : SchemaMut) {rp : Nat → PcfState → Except SchemaErr PcfState}
     {rl : List Nat → Bool → PcfState → Except SchemaErr PcfState}
@@ -785,45 +968,42 @@ theorem pcfStep_total (S : SchemaMut) {rp : Nat → PcfState → Except SchemaEr
   next node hS =>
     have hk := lt_size_of_getElem? S key node hS
     have hw := width_le_maxWidth S key node hS
-    have unn : ∀ (body : PcfState → Except SchemaErr PcfState),
+    have out_eq : ∀ (s : PcfState) (o : String), pcfMeasure S { s with out := o } = pcfMeasure S s :=
+      fun _ _ => rfl
+    have unn : isNamedKey S key = false → ∀ (body : PcfState → Except SchemaErr PcfState),
         (∀ s, pcfMeasure S s + 1 ≤ d → NP (body s)) → NP (pcfUnnamed st key body) := by
-      intro body hb
+      intro hun body hb
       unfold pcfUnnamed
       split
       · exact NP_custom
       next hc =>
         apply mapOk_NP
         apply hb
-        have hc' : key ∉ st.onPath := by simpa using hc
-        have := free_cons_lt S.size st.onPath key hk hc'
-        unfold pcfMeasure at hd ⊢
-        simp only
+        have := pcf_unnamed_enter S st key hk hun hc
         omega
-    have nam : ∀ (name : Name) (full : PcfState → Except SchemaErr PcfState),
+    have nam : isNamedKey S key = true → ∀ (name : Name) (full : PcfState → Except SchemaErr PcfState),
         (∀ s, pcfMeasure S s + 1 ≤ d → NP (full s)) → NP (pcfNamed st key name full) := by
-      intro name full hb
+      intro hnm name full hb
       unfold pcfNamed
       split
       · exact NP_ok _
       next hc =>
         apply hb
         have hc' : key ∉ st.written := by simpa using hc
-        have := free_cons_lt S.size st.written key hk hc'
-        unfold pcfMeasure at hd ⊢
-        simp only
+        have := pcf_named_enter S st key hk hnm hc'
         omega
     split
     any_goals exact NP_ok _
     next vs hT =>
       rw [hT] at hw
-      exact unn _ fun s hs => mapOk_NP (hl _ _ _ hw hs)
-    · exact unn _ fun s hs => mapOk_NP (hp _ _ hs)
-    · exact unn _ fun s hs => mapOk_NP (hp _ _ hs)
-    · exact nam _ _ fun s hs => NP_ok _
-    · exact nam _ _ fun s hs => NP_ok _
+      exact unn (by simp [isNamedKey, hS, hT]) _ fun s hs => mapOk_NP (hl _ _ _ hw (by rw [out_eq]; exact hs))
+    next hT => exact unn (by simp [isNamedKey, hS, hT]) _ fun s hs => mapOk_NP (hp _ _ (by rw [out_eq]; exact hs))
+    next hT => exact unn (by simp [isNamedKey, hS, hT]) _ fun s hs => mapOk_NP (hp _ _ (by rw [out_eq]; exact hs))
+    next hT => exact nam (by simp [isNamedKey, hS, hT]) _ _ fun s hs => NP_ok _
+    next hT => exact nam (by simp [isNamedKey, hS, hT]) _ _ fun s hs => NP_ok _
     next name fields hT =>
       rw [hT] at hw
-      exact nam _ _ fun s hs => mapOk_NP (hf _ _ _ hw hs)
+      exact nam (by simp [isNamedKey, hS, hT]) _ _ fun s hs => mapOk_NP (hf _ _ _ hw (by rw [out_eq]; exact hs))
 
 theorem pcf_total_aux (S : SchemaMut) : ∀ fuel,
     (∀ key st d, pcfMeasure S st ≤ d → d * (maxWidth S + 1) + 1 ≤ fuel → NP (pcf S fuel key st)) ∧
@@ -878,14 +1058,16 @@ theorem pcf_total_aux (S : SchemaMut) : ∀ fuel,
         have := pcfMeasure_le S ((pcf_le_aux S fuel).1 _ _ _ ha)
         exact ih3 _ _ _ d (Nat.le_trans this hm) (by omega)
 
-/-- Fuel that always suffices for the canonical form of `S`. -/
-def pcfBound (S : SchemaMut) : Nat := 2 * S.size * (maxWidth S + 1) + 1
+/-- Fuel that always suffices for the canonical form of `S` (the same shape as `renderBound`:
+    at most `S.size + 1` generations, each unnamed node entered at most once per generation). -/
+def pcfBound (S : SchemaMut) : Nat := S.size * (S.size + 1) * (maxWidth S + 1) + 1
+
+theorem pcf_total_st (S : SchemaMut) (fuel : Nat) (h : pcfBound S ≤ fuel) (key : Nat) (st : PcfState) :
+    NP (pcf S fuel key st) :=
+  (pcf_total_aux S fuel).1 key st (S.size * (S.size + 1)) (pcfMeasure_le_bound S st) h
 
 theorem pcf_total (S : SchemaMut) (fuel : Nat) (h : pcfBound S ≤ fuel) (key : Nat) :
-    NP (pcf S fuel key {}) := by
-  apply (pcf_total_aux S fuel).1 key {} (2 * S.size)
-  · simp [pcfMeasure, free_nil]; omega
-  · exact h
+    NP (pcf S fuel key {}) := pcf_total_st S fuel h key {}
 
 
 /-! ### `check_for_cycles` -/
@@ -1298,20 +1480,6 @@ theorem render_fuel_mono_aux (S : SchemaMut) : ∀ fuel,
 
 /-! #### the generation cells -/
 
-theorem lookup_filter_ne (l : List (Nat × Nat)) (i j : Nat) (h : j ≠ i) :
-    (l.filter (·.1 ≠ i)).lookup j = l.lookup j := by
-  induction l with
-  | nil => rfl
-  | cons x xs ih =>
-    obtain ⟨a, b⟩ := x
-    by_cases ha : a = i
-    · subst ha
-      have : (j == a) = false := by simpa using h
-      have hd : decide ((a, b).1 ≠ a) = false := by simp
-      simp only [List.filter, hd, List.lookup_cons, this, ih]
-    · have : decide ((a, b).1 ≠ i) = true := by simpa using ha
-      simp only [List.filter, this, List.lookup_cons, ih]
-
 theorem RenderState.get_set (st : RenderState) (i v j : Nat) :
     (st.set i v).get j = if j = i then v else st.get j := by
   unfold RenderState.get RenderState.set
@@ -1322,47 +1490,6 @@ theorem RenderState.get_set (st : RenderState) (i v j : Nat) :
 
 theorem RenderState.get_init (j : Nat) : ({} : RenderState).get j = 0 := rfl
 
-
-theorem sum_map_le {α : Type} (l : List α) (f g : α → Nat) (h : ∀ x ∈ l, f x ≤ g x) :
-    (l.map f).sum ≤ (l.map g).sum := by
-  induction l with
-  | nil => exact Nat.le_refl _
-  | cons x xs ih =>
-    simp only [List.map_cons, List.sum_cons]
-    have := h x List.mem_cons_self
-    have := ih fun y hy => h y (List.mem_cons_of_mem _ hy)
-    omega
-
-theorem sum_map_lt {α : Type} (l : List α) (f g : α → Nat) (h : ∀ x ∈ l, f x ≤ g x)
-    (a : α) (ha : a ∈ l) (hlt : f a + 1 ≤ g a) : (l.map f).sum + 1 ≤ (l.map g).sum := by
-  induction l with
-  | nil => cases ha
-  | cons x xs ih =>
-    simp only [List.map_cons, List.sum_cons]
-    have hx := h x List.mem_cons_self
-    have hle := sum_map_le xs f g fun y hy => h y (List.mem_cons_of_mem _ hy)
-    rcases List.mem_cons.mp ha with rfl | hm
-    · omega
-    · have := ih (fun y hy => h y (List.mem_cons_of_mem _ hy)) hm
-      omega
-
-theorem sum_map_le_const {α : Type} (l : List α) (f : α → Nat) (c : Nat) (h : ∀ x ∈ l, f x ≤ c) :
-    (l.map f).sum ≤ l.length * c := by
-  induction l with
-  | nil => simp
-  | cons x xs ih =>
-    simp only [List.map_cons, List.sum_cons, List.length_cons, Nat.succ_mul]
-    have := h x List.mem_cons_self
-    have := ih fun y hy => h y (List.mem_cons_of_mem _ hy)
-    omega
-
-/-- the node is a record, enum or fixed -/
-def isNamedKey (S : SchemaMut) (j : Nat) : Bool :=
-  match S[j]? with
-  | some node =>
-    (match node.type with
-      | .record _ _ => true | .enum _ _ => true | .fixed _ _ => true | _ => false)
-  | none => false
 
 /-- named nodes not written yet -/
 def unwritten (S : SchemaMut) (st : RenderState) : Nat :=
@@ -2020,6 +2147,152 @@ theorem render_unnamed_cycle_not_ok (S : SchemaMut) (C : Nat → Prop) (hC : Unn
             obtain ⟨v, hv, hCv⟩ := hnode
             obtain ⟨f', hf', st1, q, hq⟩ := renderList_ok_mem S fuel _ _ _ _ hb v hv
             exact ih f' (Nat.lt_succ_of_lt hf') _ _ _ _ hCv hq
+
+
+/-! #### the same for the canonical form (`pcf`) -/
+
+/-- `enter_unnamed`: re-entering an unnamed node whose cell holds the current generation (no named
+    type was written since it was entered) is an error. -/
+theorem pcf_reenter (S : SchemaMut) (fuel k : Nat) (st : PcfState)
+    (hu : isUnnamedKey S k = true) (hg : st.cell k = st.gen) :
+    pcf S (fuel + 1) k st = .error .custom := by
+  have hg' : (st.onPath.lookup k).getD 0 = st.written.length + 1 := hg
+  rw [pcf_succ]
+  unfold pcfStep
+  unfold isUnnamedKey at hu
+  split
+  next heq => simp [heq] at hu
+  next node hS =>
+    simp only [hS] at hu
+    obtain ⟨ty, lg⟩ := node
+    cases ty <;> simp only at hu ⊢
+    all_goals try (cases hu)
+    all_goals simp [pcfUnnamed, hg']
+
+theorem pcfStep_cop (S : SchemaMut) {rp : Nat → PcfState → Except SchemaErr PcfState}
+    {rl : List Nat → Bool → PcfState → Except SchemaErr PcfState}
+    {rf : List (String × Nat) → Bool → PcfState → Except SchemaErr PcfState}
+    (hp : ∀ k s, CustomOrPanic (rp k s)) (hl : ∀ k f s, CustomOrPanic (rl k f s))
+    (hf : ∀ k f s, CustomOrPanic (rf k f s)) (key : Nat) (st : PcfState) :
+    CustomOrPanic (pcfStep S rp rl rf key st) := by
+  have unn : ∀ (body : PcfState → Except SchemaErr PcfState), (∀ s, CustomOrPanic (body s)) →
+      CustomOrPanic (pcfUnnamed st key body) := by
+    intro body hb; unfold pcfUnnamed
+    split
+    · exact CustomOrPanic_custom
+    · exact mapOk_cop (hb _)
+  have nam : ∀ (name : Name) (full : PcfState → Except SchemaErr PcfState),
+      (∀ s, CustomOrPanic (full s)) → CustomOrPanic (pcfNamed st key name full) := by
+    intro name full hb; unfold pcfNamed
+    split
+    · exact CustomOrPanic_ok _
+    · exact hb _
+  unfold pcfStep
+  split
+  · exact CustomOrPanic_custom
+  · split
+    any_goals exact CustomOrPanic_ok _
+    · exact unn _ fun s => mapOk_cop (hl _ _ _)
+    · exact unn _ fun s => mapOk_cop (hp _ _)
+    · exact unn _ fun s => mapOk_cop (hp _ _)
+    · exact nam _ _ fun s => CustomOrPanic_ok _
+    · exact nam _ _ fun s => CustomOrPanic_ok _
+    · exact nam _ _ fun s => mapOk_cop (hf _ _ _)
+
+/-- every error of the canonical-form writer is `custom` (or the model's out-of-fuel marker) -/
+theorem pcf_cop_aux (S : SchemaMut) : ∀ fuel,
+    (∀ key st, CustomOrPanic (pcf S fuel key st)) ∧
+    (∀ ks first st, CustomOrPanic (pcfList S fuel ks first st)) ∧
+    (∀ fs first st, CustomOrPanic (pcfFields S fuel fs first st)) := by
+  intro fuel
+  induction fuel with
+  | zero =>
+    refine ⟨fun key st e h => (by cases h; exact Or.inr rfl), ?_, ?_⟩
+    · intro ks first st e h
+      cases ks with
+      | nil => cases h
+      | cons k rest => cases h; exact Or.inr rfl
+    · intro ks first st e h
+      cases ks with
+      | nil => cases h
+      | cons k rest => cases h; exact Or.inr rfl
+  | succ fuel ih =>
+    obtain ⟨ih1, ih2, ih3⟩ := ih
+    refine ⟨?_, ?_, ?_⟩
+    · intro key st
+      rw [pcf_succ]
+      exact pcfStep_cop S ih1 ih2 ih3 key st
+    · intro ks first st
+      cases ks with
+      | nil => rw [pcfList_nil]; exact CustomOrPanic_ok _
+      | cons k rest =>
+        rw [pcfList_cons]
+        exact andThen_cop (ih1 _ _) fun a => ih2 _ _ _
+    · intro fs first st
+      cases fs with
+      | nil => rw [pcfFields_nil]; exact CustomOrPanic_ok _
+      | cons f rest =>
+        obtain ⟨name, k⟩ := f
+        rw [pcfFields_cons]
+        exact andThen_cop (ih1 _ _) fun a => ih3 _ _ _
+
+theorem pcfList_ok_mem (S : SchemaMut) (fuel : Nat) (vs : List Nat) (first : Bool)
+    (st st' : PcfState) (h : pcfList S fuel vs first st = .ok st') (v : Nat) (hv : v ∈ vs) :
+    ∃ f', f' < fuel ∧ ∃ st1 st2, pcf S f' v st1 = .ok st2 := by
+  induction vs generalizing fuel st first with
+  | nil => cases hv
+  | cons k rest ih =>
+    cases fuel with
+    | zero => cases h
+    | succ fuel =>
+      rw [pcfList_cons] at h
+      obtain ⟨a, ha, hb⟩ := andThen_ok h
+      rcases List.mem_cons.mp hv with rfl | hm
+      · exact ⟨fuel, Nat.lt_succ_self _, _, a, ha⟩
+      · obtain ⟨f', hf', r⟩ := ih fuel _ _ hb hm
+        exact ⟨f', Nat.lt_succ_of_lt hf', r⟩
+
+/-- A node on a cycle through unnamed nodes only has no canonical form, whatever the fuel and
+    the state. (A cycle that goes through a named node is written: the named node by reference
+    the second time.) -/
+theorem pcf_unnamed_cycle_not_ok (S : SchemaMut) (C : Nat → Prop) (hC : UnnamedClosed S C) :
+    ∀ fuel k st st', C k → pcf S fuel k st ≠ .ok st' := by
+  intro fuel
+  induction fuel using Nat.strongRecOn with
+  | _ fuel ih =>
+    intro k st st' hk h
+    cases fuel with
+    | zero => cases h
+    | succ fuel =>
+      obtain ⟨node, hS, hnode⟩ := hC k hk
+      rw [pcf_succ] at h
+      unfold pcfStep at h
+      simp only [hS] at h
+      obtain ⟨ty, lg⟩ := node
+      cases ty <;> simp only at hnode h
+      · -- array
+        unfold pcfUnnamed at h
+        split at h
+        · cases h
+        · obtain ⟨a, ha, _⟩ := mapOk_ok h
+          obtain ⟨b, hb, _⟩ := mapOk_ok ha
+          exact ih fuel (Nat.lt_succ_self _) _ _ _ hnode hb
+      · -- map
+        unfold pcfUnnamed at h
+        split at h
+        · cases h
+        · obtain ⟨a, ha, _⟩ := mapOk_ok h
+          obtain ⟨b, hb, _⟩ := mapOk_ok ha
+          exact ih fuel (Nat.lt_succ_self _) _ _ _ hnode hb
+      · -- union
+        unfold pcfUnnamed at h
+        split at h
+        · cases h
+        · obtain ⟨a, ha, _⟩ := mapOk_ok h
+          obtain ⟨b, hb, _⟩ := mapOk_ok ha
+          obtain ⟨v, hv, hCv⟩ := hnode
+          obtain ⟨f', hf', st1, st2, hq⟩ := pcfList_ok_mem S fuel _ _ _ _ hb v hv
+          exact ih f' (Nat.lt_succ_of_lt hf') _ _ _ hCv hq
 
 
 /-! ### members of a whole schema object -/
